@@ -160,6 +160,7 @@ fn bounded_case(o: &mut Out, name: &str, payload: &[u8], true_len: Option<usize>
     for itxt in [false, true] {
         let made = if itxt { itxt_from_payload(payload).map(|t| (None, Some(t))) } else { ztxt_from_payload(payload).map(|t| (Some(t), None)) };
         let (mut z, mut i) = match made { Some(x) => x, None => { o.count("bounded.chunk-not-decoded"); continue; } };
+        let before = (z.clone(), i.clone());
         let m = alloc::mark();
         let r = guarded(|| match (&mut z, &mut i) {
             (Some(t), _) => t.decompress_text_with_limit(limit).map_err(|e| res_err(&e)),
@@ -193,6 +194,9 @@ fn bounded_case(o: &mut Out, name: &str, payload: &[u8], true_len: Option<usize>
                 if len > limit {
                     o.violation(viol("text-longer-than-the-limit-was-decompressed", detail(format!("materialised {} > limit", len))));
                 }
+            }
+            (Ok(Err(_)), _) if (z.clone(), i.clone()) != before => {
+                o.violation(viol("failed-decompression-changed-the-chunk", detail(String::new())));
             }
             (Ok(Err(_)), _) => {
                 // the chunk must still be usable: a generous limit gives the true result
@@ -315,6 +319,11 @@ pub fn run(a: &Args) {
         z[k] ^= 1 << rng.below(8);
         payloads.push((format!("corrupt{}", n), z, None));
         payloads.push((format!("garbage{}", n), (0..n).map(|_| rng.byte()).collect(), None));
+    }
+    // inflates fine, but to bytes that are not UTF-8 (an iTXt must refuse them and stay as it was; as zTXt they are ordinary Latin-1)
+    for raw in [vec![0xffu8, 0xfe, 0x41], vec![0x41, 0xc3], vec![0xed, 0xa0, 0x80, 0x42]] {
+        let n = raw.len();
+        payloads.push((format!("non-utf8-{}", hex(&raw)), zlib_flate2(&raw, 6), Some(n)));
     }
     for (name, p, tl) in &payloads {
         for &l in &limits {
